@@ -221,6 +221,8 @@ struct Thread {
 #[derive(Default)]
 struct State {
     active: bool,
+    /// hooks pass through and record nothing (oracle reads)
+    muted: bool,
     gating: HashSet<String>,
     threads: Vec<Thread>,
     by_task: HashMap<tokio::task::Id, usize>,
@@ -322,7 +324,7 @@ fn sync_hook(name: &str, detail: &str) -> Action {
         return Action::Continue;
     }
     with_state(|st| {
-        if !st.active {
+        if !st.active || st.muted {
             return;
         }
         let t = thread_of(st);
@@ -335,7 +337,7 @@ fn sync_hook(name: &str, detail: &str) -> Action {
 
 async fn async_hook(name: String, detail: String) -> Action {
     let rx = with_state(|st| {
-        if !st.active {
+        if !st.active || st.muted {
             return None;
         }
         let t = thread_of(st);
@@ -487,6 +489,30 @@ async fn run_reader(db: &Database, actor: usize, table: &str, batch: usize) -> S
         Ok(t) => t,
         Err(_) => return "err:notfound".into(),
     };
+    // model-free oracle: an ungated full scan in the same atomic segment as the pin below
+    with_state(|st| st.muted = true);
+    let oracle: Result<Vec<i64>, String> = async {
+        let txn = t.read().await.map_err(|e| e.to_string())?;
+        let mut it = txn
+            .scan(&[StorageColumnRef::Idx(0)], ScanOptions::default())
+            .await
+            .map_err(|e| e.to_string())?;
+        let mut all = vec![];
+        while let Some(chunk) = it.next_batch(None).await.map_err(|e| e.to_string())? {
+            all.extend(canon_rows(&chunk).iter().map(|r| value_i64(&r[0])));
+        }
+        Ok(all)
+    }
+    .await;
+    with_state(|st| st.muted = false);
+    hpoint(
+        "rd.oracle",
+        &match oracle {
+            Ok(v) => rows_text(v, true),
+            Err(e) => err_class(&e),
+        },
+    )
+    .await;
     with_state(|st| {
         st.reader_mode.insert(actor);
     });
@@ -615,6 +641,42 @@ pub struct Outcome2 {
     pub checks: Vec<String>,
 }
 
+/// Canonical observable state of the version manager (same format as the Lean driver's
+/// `renderObs`): delete vectors by deleted positions, empty pending entries dropped.
+pub fn canon_obs(storage: &SecondaryStorage) -> String {
+    let raw = storage.verif_state();
+    let mut f: BTreeMap<String, String> = BTreeMap::new();
+    for part in raw.split(';') {
+        if let Some((k, v)) = part.split_once('=') {
+            f.insert(k.to_string(), v.to_string());
+        }
+    }
+    let (_, _, dvs) = storage.verif_snapshot(None);
+    let mut by: BTreeMap<(u32, u32), Vec<u32>> = BTreeMap::new();
+    for (t, r, d) in dvs {
+        let rows = storage.verif_dv_rows(t, d).unwrap_or_default();
+        by.entry((t, r)).or_default().extend(rows);
+    }
+    let dvs = by
+        .iter_mut()
+        .map(|((t, r), v)| {
+            v.sort();
+            v.dedup();
+            format!("{t}:{r}:{}", v.iter().map(|x| x.to_string()).collect::<Vec<_>>().join("+"))
+        })
+        .collect::<Vec<_>>()
+        .join(",");
+    let pending = f["pending"]
+        .split(',')
+        .filter(|e| !e.is_empty() && !e.ends_with(':'))
+        .collect::<Vec<_>>()
+        .join(",");
+    format!(
+        "epoch={};pins={};snap={};dvs={};pending={};pool={}",
+        f["epoch"], f["pins"], f["snap"], dvs, pending, f["pool"]
+    )
+}
+
 fn disk_listing(path: &Path) -> String {
     let mut v = vec![];
     if let Ok(rd) = std::fs::read_dir(path) {
@@ -730,7 +792,7 @@ async fn run_case_async(case: &Case, dir: &Path) -> Outcome2 {
             n_enabled: 0,
             choice: 0,
             events: evs,
-            obs: storage.verif_state(),
+            obs: canon_obs(&storage),
             disk: disk_listing(dir),
         });
         let mut guard = 0;
@@ -803,7 +865,7 @@ async fn run_case_async(case: &Case, dir: &Path) -> Outcome2 {
                 n_enabled: n,
                 choice,
                 events: evs,
-                obs: storage.verif_state(),
+                obs: canon_obs(&storage),
                 disk: disk_listing(dir),
             });
         }
@@ -820,7 +882,7 @@ async fn run_case_async(case: &Case, dir: &Path) -> Outcome2 {
 
     // final observations, scheduler off
     with_state(|s| s.active = false);
-    out.final_state = storage.verif_state();
+    out.final_state = canon_obs(&storage);
     if out.deadlock.is_none() {
         let names = table_names(&db);
         for t in &names {
